@@ -154,6 +154,21 @@ func kinds(thorough bool) []kind {
 			{v: list(uint64(1), uint64(2), uint64(3), uint64(4))}}})
 	ks = append(ks, kind{s: &Shape{Kind: Vec, Elem: u16, Min: 2, Max: 256},
 		vals: []val{{v: list(uint64(7)), valid: true}, {v: list(uint64(7), uint64(8)), valid: true}, {v: list()}, {v: []any(nil)}}})
+	// vectors with many elements (a count is not a nesting depth, and 63 / 64 / 65, 255 / 256 / 257 elements are nothing special)
+	many := func(n int, f func(i int) any) []any {
+		l := make([]any, n)
+		for i := range l {
+			l[i] = f(i)
+		}
+		return l
+	}
+	u16v := func(i int) any { return uint64(i*257 + 1) }
+	ks = append(ks, kind{s: &Shape{Kind: Vec, Elem: u16, Min: 0, Max: 65535},
+		vals: []val{{v: many(63, u16v), valid: true}, {v: many(64, u16v), valid: true}, {v: many(65, u16v), valid: true}, {v: many(256, u16v), valid: true}, {v: many(1000, u16v), valid: true}}})
+	esm := &Shape{Kind: Struct, Fields: []Field{{Name: "A", S: &Shape{Kind: U8}}, {Name: "B", S: &Shape{Kind: Bytes, Min: 0, Max: 3}}}}
+	esv := func(i int) any { return list(uint64(i%251), []byte{byte(i), byte(i >> 8)}[:i%3]) }
+	ks = append(ks, kind{s: &Shape{Kind: Vec, Elem: esm, Min: 0, Max: 65535},
+		vals: []val{{v: many(64, esv), valid: true}, {v: many(65, esv), valid: true}, {v: many(257, esv), valid: true}}})
 	ks = append(ks, kind{s: &Shape{Kind: Vec, Elem: u24, Min: 0, Max: 9}, core: true,
 		vals: []val{{v: list(), valid: true}, {v: list(uint64(0x010203)), valid: true}, {v: list(uint64(0x010203), uint64(0xa0b0c0), uint64(0xffffff)), valid: true},
 			{v: list(uint64(1), uint64(2), uint64(3), uint64(4))}, {v: list(uint64(0x1000000))}}})
